@@ -114,9 +114,9 @@ class ProgGen(object):
                 # behave accepts a doc-string AND a table behind one step (context.text and context.table are both set)
                 st["doc"] = r.choice(["text above a table", "two\n  lines"])
         elif r.random() < o["p_doc"]:
-            st["doc"] = r.choice(["one line", "two\n  lines", "",
-                                  # a text that QUOTES Gherkin: the other delimiter and a line that reads like this very step
-                                  "as in:\n'''\n%s %s\n'''" % (kw if kw != "*" else "Given", text)])
+            st["doc"] = r.choice(["one line", "two\n  lines", ""] +
+                                 # a text that QUOTES Gherkin: the other delimiter and a line that reads like this very step
+                                 (["as in:\n'''\n%s %s\n'''" % (kw if kw != "*" else "Given", text)] if not placeholder else []))
         return st
 
     def steps(self, n, placeholder=None, row_values=None, first_kw_ok=True, in_background=False):
